@@ -296,7 +296,7 @@ def check_forming(repo, rep):
                   "stored 1m candles of that window; get_current_candle returns that last candle")
     t0 = 1_600_000_000_000 // (3 * MIN) * (3 * MIN)
     dna_mod, dna_cls = repo.module(DNA), repo.cls(DNA, "DynamicNumpyArray")
-    for n, partial in [(n, False) for n in range(0, 8)] + [(n, True) for n in range(0, 8) if n % 3]:
+    for n, partial in [(n, False) for n in range(0, 8)] + [(n, True) for n in range(0, 8) if n % 3] + [(n, "reread") for n in range(1, 8) if n % 3]:
         # partial=True: the history in which an order got executed earlier inside the current window, so the 3m storage already
         # holds a (by now outdated) partial candle for that window (_update_all_routes_a_partial_candle), then more minutes arrived
         for method in ("get_candles", "get_current_candle"):
@@ -304,18 +304,29 @@ def check_forming(repo, rep):
                 it = Interp(repo, stubs=W.base_stubs(), overrides={"jesse/config.py:config": {"app": {"considering_timeframes": ("1m", "3m")}, "env": {}}}, decisions=dec)
                 arr1 = it.instantiate(ClassV(dna_cls, dna_mod), [(num(16), num(6))], {})
                 arr3 = it.instantiate(ClassV(dna_cls, dna_mod), [(num(8), num(6))], {})
+                reread = partial == "reread"
                 for k in range(n):
-                    it.call(it.getattr(arr1, "append"), [Arr([num(t0 + k * MIN)] + [A(f"{x}{k}") for x in "ochlv"])], {})
+                    # reread: the newest minute first holds the partial candle of a fill (S..), is read by a hook, and is then overwritten
+                    # in place by the whole minute (what the matching loop does at every fill) - the number of stored candles does not change
+                    it.call(it.getattr(arr1, "append"), [Arr([num(t0 + k * MIN)] + [A(f"S{x}" if (reread and k == n - 1) else f"{x}{k}") for x in "ochlv"])], {})
                 for w in range(n // 3):
                     it.call(it.getattr(arr3, "append"), [Arr([num(t0 + 3 * w * MIN)] + [A(f"L{w}_{j}") for j in range(1, 6)])], {})
-                if partial:
+                if partial is True:
                     it.call(it.getattr(arr3, "append"), [Arr([num(t0 + 3 * (n // 3) * MIN)] + [A(f"P{j}") for j in range(1, 6)])], {})
                 cs = W.obj_of(repo, CANDLES_STATE, "CandlesState", "store.candles",
                               {"storage": {"Sandbox-BTC-USDT-1m": arr1, "Sandbox-BTC-USDT-3m": arr3}, "are_all_initiated": False, "initiated_pairs": {}})
-                return it, lambda it: it.call(it.getattr(cs, method), ["Sandbox", "BTC-USDT", "3m"], {})
+
+                def go(it):
+                    if reread:
+                        it.call(it.getattr(cs, "get_candles"), ["Sandbox", "BTC-USDT", "3m"], {})
+                        it.call(it.getattr(cs, "get_current_candle"), ["Sandbox", "BTC-USDT", "3m"], {})
+                        it.call(it.getattr(arr1, "__setitem__"), [num(-1), Arr([num(t0 + (n - 1) * MIN)] + [A(f"{x}{n - 1}") for x in "ochlv"])], {})
+                    return it.call(it.getattr(cs, method), ["Sandbox", "BTC-USDT", "3m"], {})
+                return it, go
             for out in explore(mk, 32):
-                key = f"{method}|n={n}" + ("|after-partial" if partial else "")
-                hist = " after a partial candle of this window was stored at an order execution" if partial else ""
+                key = f"{method}|n={n}" + ("|after-partial" if partial is True else "|reread" if partial else "")
+                hist = " after a partial candle of this window was stored at an order execution" if partial is True else \
+                       " read for the second time in one minute, after the newest 1m candle was overwritten in place (fill -> whole minute)" if partial else ""
                 windows = (n + 2) // 3
                 rem = n % 3
                 if out.kind != "return":
@@ -335,7 +346,7 @@ def check_forming(repo, rep):
                     if rows is None or len(rows) != windows:
                         rep.violation(rid, "get_candles|one-per-window", f"get_candles returns {len(rows) if rows is not None else v!r} candles of 3m for {n} stored minutes (started windows: {windows}){hist}")
                     elif forming is not None and not same_candle(rows[-1], forming):
-                        rep.violation(rid, "get_candles|forming" + ("|after-partial" if partial else ""), f"forming 3m candle with {rem} of 3 minutes{hist} is {rows[-1]!r}, expected {forming!r}")
+                        rep.violation(rid, "get_candles|forming" + ("|after-partial" if partial is True else "|reread" if partial else ""), f"forming 3m candle with {rem} of 3 minutes{hist} is {rows[-1]!r}, expected {forming!r}")
                     elif rows is not None and windows:
                         tss = [int(r.items[0].const_value()) for r in rows]
                         if tss != [t0 + 3 * w * MIN for w in range(windows)]:
@@ -345,13 +356,13 @@ def check_forming(repo, rep):
                         pass
                     elif forming is not None:
                         if not same_candle(v, forming):
-                            rep.violation(rid, "get_current_candle|forming" + ("|after-partial" if partial else ""), f"get_current_candle with {rem} of 3 minutes{hist} is {v!r}, expected {forming!r}")
+                            rep.violation(rid, "get_current_candle|forming" + ("|after-partial" if partial is True else "|reread" if partial else ""), f"get_current_candle with {rem} of 3 minutes{hist} is {v!r}, expected {forming!r}")
                     else:
                         lastw = n // 3 - 1
                         if not (isinstance(v, Arr) and v.items[1].same(A(f"L{lastw}_1"))):
                             rep.violation(rid, "get_current_candle|complete", f"get_current_candle on a complete window is {v!r}")
                 rep.instance(rid, key, {"stored_minutes": n, "result": repr(v)[:160]})
-    rep.floor(rid, 22)
+    rep.floor(rid, 30)
 
 
 def check_stored_1m(repo, rep):
